@@ -43,14 +43,14 @@ func init() {
 				for _, pfx := range []string{"", "q"} {
 					for s := 0; s < tierPick(tier, 1, 6); s++ {
 						bs = append(bs, core.Batch{Name: fmt.Sprintf("store-%d-%d", i, s), TimeoutS: 600,
-							Params: core.Params(idxParams{Kind: "history", Typed: typed, Prefix: pfx, Histories: tierPick(tier, 12, 250), Shard: s})})
+							Params: core.Params(idxParams{Kind: "history", Typed: typed, Prefix: pfx, Histories: tierPick(tier, 30, 250), Shard: s})})
 					}
 					i++
 				}
 			}
 			for s := 0; s < tierPick(tier, 4, 16); s++ {
 				bs = append(bs, core.Batch{Name: fmt.Sprintf("service-%d", s), TimeoutS: 600,
-					Params: core.Params(idxParams{Kind: "service", Typed: s%2 == 0, Prefix: []string{"", "sv"}[s/2%2], Histories: tierPick(tier, 6, 120), Shard: s})})
+					Params: core.Params(idxParams{Kind: "service", Typed: s%2 == 0, Prefix: []string{"", "sv"}[s/2%2], Histories: tierPick(tier, 15, 120), Shard: s})})
 			}
 			return bs
 		},
